@@ -403,7 +403,7 @@ func (o *ObjectSchema) validateMap(data map[string]any) error {
 	}
 	return nil
 }
-func (o *ObjectSchema) validateMapTypesCompatibility(data map[string]any) error {
+func (o *ObjectSchema) validateMapTypesCompatibility(data map[string]any, compared comparedObjects) error {
 	// Note: Interdependencies are not validated here yet.
 
 	// Verify that all present fields match the self schema
@@ -412,7 +412,7 @@ func (o *ObjectSchema) validateMapTypesCompatibility(data map[string]any) error 
 		if !ok {
 			return o.invalidKeyError(k)
 		}
-		if err := property.ValidateCompatibility(v); err != nil {
+		if err := property.validateCompatibilityIn(v, compared); err != nil {
 			return ConstraintErrorAddPathSegment(err, k)
 		}
 	}
@@ -467,7 +467,7 @@ func (o *ObjectSchema) validateStruct(data any) error {
 	return o.validateFieldInterdependencies(rawData)
 }
 
-func (o *ObjectSchema) validateSchemaCompatibility(schemaType Object) error {
+func (o *ObjectSchema) validateSchemaCompatibility(schemaType Object, compared comparedObjects) error {
 	fieldData := map[string]any{}
 	// Validate IDs if both schemas require it to be enforced.
 	if !schemaType.IDUnenforced() && !o.IDUnenforced() && schemaType.ID() != o.ID() {
@@ -481,16 +481,16 @@ func (o *ObjectSchema) validateSchemaCompatibility(schemaType Object) error {
 		fieldData[key] = value
 	}
 	// Now validate object fields
-	return o.validateMapTypesCompatibility(fieldData)
+	return o.validateMapTypesCompatibility(fieldData, compared)
 }
 
-func (o *ObjectSchema) validateRawCompatibility(typeOrData any) error {
+func (o *ObjectSchema) validateRawCompatibility(typeOrData any, compared comparedObjects) error {
 	// Check if it's just a string->interface map. If so, pass it into validateMapTypes
 	// Can't validate IDs, but that's acceptable. The only thing that matters in those cases is that the properties match.
 	// The reason for that is because we're checking if fields conform to the requirements of the object in this else section.
 	if fieldData, ok := typeOrData.(map[string]any); ok {
 		// Validate object fields
-		return o.validateMapTypesCompatibility(fieldData)
+		return o.validateMapTypesCompatibility(fieldData, compared)
 	}
 	// Try validating as data
 	_, err := o.Unserialize(typeOrData)
@@ -504,14 +504,18 @@ func (o *ObjectSchema) validateRawCompatibility(typeOrData any) error {
 }
 
 func (o *ObjectSchema) ValidateCompatibility(typeOrData any) error {
+	return o.validateCompatibilityIn(typeOrData, comparedObjects{})
+}
+
+func (o *ObjectSchema) validateCompatibilityIn(typeOrData any, compared comparedObjects) error {
 	// Check if it's a schema. If it is, verify it. If not, verify it as data.
 	schemaType, ok := ConvertToObjectSchema(typeOrData)
 	if ok {
 		// It's a schema, so see if the schema matches
-		return o.validateSchemaCompatibility(schemaType)
+		return o.validateSchemaCompatibility(schemaType, compared)
 	} else {
 		// It's not a schema, so it's ether a map of fields or raw data
-		return o.validateRawCompatibility(typeOrData)
+		return o.validateRawCompatibility(typeOrData, compared)
 	}
 }
 
